@@ -251,7 +251,7 @@ func (m *Machine) pick(n int, why string) int {
 	if n <= 1 {
 		return 0
 	}
-	if strings.HasPrefix(why, "preempt") || strings.HasPrefix(why, "schedule") || strings.HasPrefix(why, "select") || strings.HasPrefix(why, "map iteration") {
+	if strings.HasPrefix(why, "preempt") || strings.HasPrefix(why, "schedule") || strings.HasPrefix(why, "select") || strings.HasPrefix(why, "map iteration") || strings.HasPrefix(why, "rand.") {
 		m.envPicks++ // decisions the native runtime takes on its own (not forced by replay values)
 	}
 	if m.pos < len(m.prefix) {
